@@ -912,6 +912,15 @@ def check_section_sequences(chk, tu):
         'start-and-element': [1, 3, 4, 8, 9, 10],
         'custom-between-datacount-and-code': [1, 3, 5, 12, 0, 10, 0, 11, 0],
     }
+    if chk.tier == 'thorough':
+        # every subset of the sections in positional order (4096 sequences), and each of them with a custom section between all neighbours
+        import itertools
+        for r_ in range(0, len(ORDER) + 1):
+            for sub in itertools.combinations(ORDER, r_):
+                seqs['subset:' + ','.join(map(str, sub))] = list(sub)
+        for r_ in (3, 6, 9):
+            for sub in list(itertools.combinations(ORDER, r_))[::7]:
+                seqs['customs:' + ','.join(map(str, sub))] = [0] + [y for x in sub for y in (x, 0)]
     vd = tu.vars.get('wasmSectionReaders')
     init = [c for c in kids(vd) if c.get('kind') == 'InitListExpr'][0]
     readers = {}
